@@ -177,11 +177,16 @@ def run(pid, tier, seed):
             order = list(wnames) + rng.sample(["no such file.log", "empty.log", "empty dir"], rng.choice([0, 1, 3]))
             order += rng.sample(wnames, rng.choice([0, 1, 2]))      # a path named twice is read twice, by either route
             rng.shuffle(order)
+            # the same file spelled with a leading ./ ; the last stdin line without its newline
+            order = [("./" + n_ if (n_ in wcontent and not n_.startswith(" ") and rng.random() < 0.3) else n_) for n_ in order]
+            for n_ in order:
+                wcontent.setdefault(n_, wcontent.get(n_[2:], b""))
+            nofinal = rng.random() < 0.5
             want_w = b"".join(wcontent[n_] for n_ in order)
             k = rng.randrange(len(order) + 1)
             m = rng.randrange(k, len(order) + 1)
             wruns = [("ws-args", common.run_s4(["--color", "never"] + order, cwd=wd, timeout=60)),
-                     ("ws-stdin", common.run_s4(["--color", "never", "-"], cwd=wd, stdin=("\n".join(order) + "\n").encode(), timeout=60)),
+                     ("ws-stdin", common.run_s4(["--color", "never", "-"], cwd=wd, stdin=("\n".join(order) + ("" if nofinal else "\n")).encode(), timeout=60)),
                      ("ws-split", common.run_s4(["--color", "never"] + order[:k] + ["-"] + order[m:], cwd=wd,
                                                 stdin=("\n".join(order[k:m]) + ("\n" if order[k:m] else "")).encode(), timeout=60))]
             for label, run_ in wruns:
@@ -190,6 +195,29 @@ def run(pid, tier, seed):
                     rep.violation("expansion:%s" % label, "%s: paths with leading / trailing white space: stdout differs from the files named "
                                   "(rc=%s, got %d bytes, want %d)" % (label, run_.rc, len(run_.out), len(want_w)),
                                   {"kind": "c15-ws", "order": order, "stderr": run_.err[-300:].decode(errors="replace")})
+        # symbolic links whose own name and whose target's name fall in different classes: the walk goes by the name the
+        # file has IN THE TREE (a link named *.log to a *.bin is read; a link named *.png to a *.log is not)
+        xl = os.path.join(sc, "xlinks")
+        os.makedirs(os.path.join(xl, "logs", "app"))
+        os.makedirs(os.path.join(xl, "store"))
+        seg = b"".join(b"2024-01-01T00:00:00 src=SEG idx=%d\n" % q for q in range(2))
+        real = b"".join(b"2024-01-01T00:00:00 src=REAL idx=%d\n" % q for q in range(2))
+        plain = b"".join(b"2024-01-01T00:00:00 src=PLAIN idx=%d\n" % q for q in range(2))
+        for n_, blob in (("store/seg-0001.bin", seg), ("store/real.log", real), ("logs/app/plain.log", plain)):
+            with open(os.path.join(xl, n_), "wb") as f:
+                f.write(blob)
+        os.symlink("../../store/seg-0001.bin", os.path.join(xl, "logs", "app", "current.log"))
+        os.symlink("../../store/real.log", os.path.join(xl, "logs", "app", "shot.png"))
+        os.symlink("../../store/real.log", os.path.join(xl, "logs", "app", "zlatest"))
+        want_x = seg + plain + real          # current.log, plain.log, zlatest (sorted); shot.png is a non-log name
+        xruns = [("xlink-dir", common.run_s4(["--color", "never", "logs"], cwd=xl, timeout=60)),
+                 ("xlink-dir-stdin", common.run_s4(["--color", "never", "-"], cwd=xl, stdin=b"logs\n", timeout=60)),
+                 ("xlink-list", common.run_s4(["--color", "never", "logs/app/current.log", "logs/app/plain.log", "logs/app/zlatest"], cwd=xl, timeout=60))]
+        for label, run_ in xruns:
+            nruns += 1
+            if run_.crashed or run_.out != want_x:
+                rep.violation("expansion:%s" % label, "%s: links named across the log / non-log divide: stdout differs (rc=%s, got %r)"
+                              % (label, run_.rc, run_.out[:200]), {"kind": "c15-xlink", "stderr": run_.err[-300:].decode(errors="replace")})
         rep.coverage["evaluations"] = nruns
         # tar inside a walked directory: members follow the same rule as files (explicit = attempted, walked = filtered)
         d = os.path.join(sc, "tarcase", "d")
